@@ -46,6 +46,9 @@ Mutants this was built against (results in the final report):
 """
 import itertools
 import os
+import time
+
+os.environ["RUST_BACKTRACE"] = "0"
 
 from vlib import env
 
@@ -259,11 +262,40 @@ class _Tree:
             f.write(data)
 
 
+class _quiet_stderr:
+    """the compiled rio reader panics on invalid UTF-8 and Rust prints the panic
+    message on fd 2; silence fd 2 for the calls where that is expected"""
+
+    def __init__(self, on):
+        self.on = on
+
+    def __enter__(self):
+        if self.on:
+            self.saved = os.dup(2)
+            self.null = os.open(os.devnull, os.O_WRONLY)
+            os.dup2(self.null, 2)
+
+    def __exit__(self, *a):
+        if self.on:
+            os.dup2(self.saved, 2)
+            os.close(self.saved)
+            os.close(self.null)
+
+
+def _is_utf8(b):
+    try:
+        (b or b"").decode("utf-8")
+        return True
+    except UnicodeDecodeError:
+        return False
+
+
 def _read_conflicts(tree):
     """-> ('ok', specs) | ('E:kind', None)"""
     from breezy import errors
     try:
-        cl = tree.open().conflicts()
+        with _quiet_stderr(not _is_utf8(tree.raw("conflicts"))):
+            cl = tree.open().conflicts()
         return "ok", [obj_spec(c) for c in cl]
     except errors.ConflictFormatError:
         return "E:Format", None
@@ -534,7 +566,9 @@ def _level_d(ctx, tree, n):
     versioned = [p for p, i, c in tree.FILES if c is not None]
     others = ["dir", "zz", "dir/zz", "", "a\nb", "é/x"]
     cases, lines, outs = [], [], []
-    tree3 = ",".join("%s/%s/%s" % (hx(p), hx(i), hx(tree.sha.get(p, b"-"))) for p, i, c in tree.FILES)
+    root_id = tree.open().path2id("")
+    tree3 = ",".join("%s/%s/%s" % (hx(p), hx(i), hx(tree.sha.get(p, b"-")))
+                     for p, i, c in [("", root_id, None)] + tree.FILES)
     for i in range(n):
         hashes = {}
         for p in ctx.rng.sample(versioned + others, ctx.rng.randrange(0, 7)):
@@ -582,12 +616,10 @@ def _level_d(ctx, tree, n):
             out = "ok " + (",".join("%s/%s" % (hx(p), hx(h)) for p, h in back.items()) or "-")
         except errors.MergeModifiedFormatError:
             out = "E:Format"
-        except KeyError:
-            out = "E:KeyError"
         except ValueError:
             out = "E:ValueError"
-        except TypeError:
-            out = "E:TypeError"
+        except (AttributeError, TypeError, KeyError):  # a stanza without file_id / hash
+            out = "E:BadStanza"
         ctx.case(case, nontrivial=bool(b))
         ctx.count("D:file:" + out.split(" ")[0])
         cases.append(case); lines.append("mmread %s %s" % (tree3, _file_arg(b))); outs.append(out)
@@ -619,11 +651,17 @@ def _level_x(ctx, tree):
 # ---------------------------------------------------------------- entry points
 def run(ctx, scale=1):
     tree = _Tree()
-    _level_a(ctx, tree, ctx.pick(1500, 15000) * scale)
-    _level_b(ctx, tree, ctx.pick(500, 5000) * scale)
-    _level_c(ctx, tree, ctx.pick(25, 200) * scale, ctx.pick(300, 3000) * scale)
-    _level_d(ctx, tree, ctx.pick(300, 3000) * scale)
-    _level_x(ctx, tree)
+    t = [time.time()]
+
+    def lap(name):
+        t.append(time.time())
+        ctx.extra.setdefault("level_seconds", {})[name] = round(t[-1] - t[-2], 1)
+
+    _level_a(ctx, tree, ctx.pick(700, 12000) * scale); lap("A")
+    _level_b(ctx, tree, ctx.pick(300, 4000) * scale); lap("B")
+    _level_c(ctx, tree, ctx.pick(15, 150) * scale, ctx.pick(200, 2500) * scale); lap("C")
+    _level_d(ctx, tree, ctx.pick(200, 2500) * scale); lap("D")
+    _level_x(ctx, tree); lap("X")
 
 
 def widen(ctx):
